@@ -180,7 +180,7 @@ func (e *Explorer) Explore(run func(c *Chooser) Outcome) {
 				e.visited = saved
 				e.Rechecked++
 				if out2.Obs != out.Obs || len(c2.choices) != len(c.choices) {
-					e.Diverged = append(e.Diverged, fmt.Sprintf("choices %v: %q vs %q", c.choices, out.Obs, out2.Obs))
+					e.Diverged = append(e.Diverged, fmt.Sprintf("choices %v: %q vs %q; schedules %v vs %v", c.choices, out.Obs, out2.Obs, c.Trace(), c2.Trace()))
 				}
 			}
 		}
